@@ -127,6 +127,22 @@ CHECKS = {
         "Sub-operations are scripted stubs of send_c_store.",
         "3/C22",
     ),
+    "C11": (
+        "exploration",
+        "enum",
+        "bounded-exhaustive enumeration of negotiation configurations carried through the real RQ/AC wire path between two real AEs under the simulator",
+        "2500 (thorough: + 27 context triples) configurations of requested contexts, role proposals and supported contexts with role settings are each run as a full association between two real application entities: every proposed context must appear exactly once on the requestor side as accepted or rejected, both sides must hold the same accepted IDs with the same abstract and transfer syntaxes, and their roles must be complementary.",
+        "Default schedule of the simulator; a codec error that is symmetric in both pynetdicom endpoints is invisible here (C01 covers it).",
+        "3/C11",
+    ),
+    "C12": (
+        "exploration",
+        "enum",
+        "enumeration of AE configurations, each run as a real association under the simulator, with the RQ/AC bytes from the wire tap checked by a strict reference decoder",
+        "215 configurations (1..128 requested contexts with repeated abstract syntaxes, AE titles, maximum PDU sizes, implementation UID / version names, every subset of extended-negotiation items incl. user identity types 1..5): the A-ASSOCIATE-RQ and the A-ASSOCIATE-AC/RJ on the wire are decoded by the strict reference decoder (every length field verified) and checked for 1..128 contexts with distinct odd IDs, one abstract and >= 1 transfer syntax each, exactly one application-context and user-information item with exactly one maximum-length and implementation-class item, one result per proposed context, a transfer syntax on every accepted item, legal non-blank AE titles and legal UIDs.",
+        "Structural rules from PS3.8 9.3.2/9.3.3 and PS3.5.",
+        "3/C12",
+    ),
     "C14": (
         "model_checking",
         "sim",
